@@ -178,6 +178,21 @@ fn explore(ctx: &Ctx) -> Outcome {
             }
         }
         layers.push(json!({"family": "a fixed series of failing parses / failing serializations / odd strings on the same thread right before the case", "cases": reps.len(), "completed": true}));
+        // each SINGLE call of the series immediately before a representative case
+        let reps2: Vec<Content> = binfam::kana_family().into_iter().step_by(5).chain(binfam::length_sweep().into_iter().step_by(131)).collect();
+        for i in 0..props::poison::count() {
+            for c in &reps2 {
+                props::poison::single_call(i);
+                t.cases += 1;
+                t.nontrivial += 1;
+                if let Some((sig, summary)) = judge(c, &mut t, false) {
+                    let mut cj = binfam::describe(c);
+                    cj["after_single_call"] = json!(i);
+                    t.violate(format!("after-single-call:{}", sig), format!("right after call #{} of the odd-call series: {}", i, summary.chars().take(500).collect::<String>()), cj);
+                }
+            }
+        }
+        layers.push(json!({"family": "each single call of the odd-call series immediately before a representative case", "calls": props::poison::count(), "representatives": reps2.len(), "completed": true}));
         total.absorb(t);
     }
     // large archives (tables and text beyond 64 KiB; a ladder of cell counts)
@@ -237,6 +252,10 @@ fn replay(_ctx: &Ctx, case: &Value) -> Vec<Violation> {
     }
     let c = binfam::content_from_json(case);
     let mut t = Tally::new();
+    if let Some(i) = case["after_single_call"].as_u64() {
+        props::poison::single_call(i as usize);
+        return judge(&c, &mut t, false).map(|(sig, summary)| vec![Violation { sig: format!("after-single-call:{}", sig), summary, case: case.clone() }]).unwrap_or_default();
+    }
     if case["after_failed_calls"].as_bool().unwrap_or(false) {
         props::poison::failing_calls();
         return judge(&c, &mut t, true).map(|(sig, summary)| vec![Violation { sig: format!("after-failed-calls:{}", sig), summary, case: case.clone() }]).unwrap_or_default();
